@@ -180,21 +180,40 @@ def reactsOf (env : Env) (z : Bool) (fed : List C05.Msg) (ls : List Bytes) : Lis
 theorem msgsOf_append (env : Env) (a b : List Bytes) : msgsOf env (a ++ b) = msgsOf env a ++ msgsOf env b := by
   simp [msgsOf]
 
-theorem feedLines_eq (env : Env) (hne : NoEscape env) (ls : List Bytes) (w : World) :
+/-- none of these messages makes the Irc call `driver.reconnect()` -/
+def NoReconnectOn (env : Env) (ms : List C05.Msg) : Prop := ∀ m ∈ ms, ∀ h, env.reconnects h m = none
+
+/-- no message at all makes the Irc reconnect -/
+def NoReconnect (env : Env) : Prop := ∀ h m, env.reconnects h m = none
+
+theorem NoReconnect.on {env : Env} (h : NoReconnect env) (ms : List C05.Msg) : NoReconnectOn env ms :=
+  fun m _ hist => h hist m
+
+theorem feedLines_eq (env : Env) (hne : NoEscape env) (ls : List Bytes) (w : World)
+    (hnr : NoReconnectOn env (msgsOf env ls)) :
     feedLines env ls w =
-      { w with fed := w.fed ++ msgsOf env ls,
-               queue := w.queue ++ reactsOf env w.ircZombie w.fed ls,
-               queued := w.queued ++ reactsOf env w.ircZombie w.fed ls } := by
+      { w with fed := w.fed ++ msgsOf env ls, allFed := w.allFed ++ msgsOf env ls,
+               queue := w.queue ++ reactsOf env w.ircZombie w.allFed ls,
+               queued := w.queued ++ reactsOf env w.ircZombie w.allFed ls } := by
   induction ls generalizing w with
   | nil => simp [feedLines, msgsOf, reactsOf, reactsFrom]
   | cons l ls ih =>
     unfold feedLines
     cases h : parseMsg env.timeOk (decode l) with
-    | empty => simp [ih, msgsOf, reactsOf, lineMsg, h]
-    | malformed => simp [ih, msgsOf, reactsOf, lineMsg, h, hne.2.2]
+    | empty =>
+      have hnr' : NoReconnectOn env (msgsOf env ls) := by
+        simpa [msgsOf, lineMsg, h] using hnr
+      simp [ih _ hnr', msgsOf, reactsOf, lineMsg, h]
+    | malformed =>
+      have hnr' : NoReconnectOn env (msgsOf env ls) := by
+        simpa [msgsOf, lineMsg, h] using hnr
+      simp [ih _ hnr', msgsOf, reactsOf, lineMsg, h, hne.2.2]
     | crash e => exact absurd h (parseMsg_no_crash _ _ _)
     | msg m =>
-      simp only [hne.1 w.fed m, ih, feedMsg]
+      have hm : msgsOf env (l :: ls) = m :: msgsOf env ls := by simp [msgsOf, lineMsg, h]
+      have hnr' : NoReconnectOn env (msgsOf env ls) := fun m' hm' => hnr m' (by rw [hm]; simp [hm'])
+      have hr : env.reconnects w.allFed m = none := hnr m (by rw [hm]; simp) _
+      simp only [hne.1 w.allFed m, hr, ih _ hnr', feedMsg]
       simp [msgsOf, reactsOf, reactsFrom, lineMsg, h]
 
 /-! ### the invariant -/
@@ -275,16 +294,50 @@ theorem sendIfMsgs_eq (w : World) : sendIfMsgs env w = sendPlain w := by
 theorem inv_sendIfMsgs (w : World) (h : Inv env w) : Inv env (sendIfMsgs env w) := by
   rw [sendIfMsgs_eq hne]; exact inv_sendPlain w h
 
+omit hne in
+/-- a new connection starts from a clean slate: the invariant holds whatever was going on -/
+theorem inv_reconnect (wait : Bool) (w : World) (hc : w.crashed = none) : Inv env (reconnect env wait w) := by
+  unfold reconnect
+  cases wait <;> exact ⟨rfl, rfl, rfl, rfl, hc⟩
+
+/-- the `for line in lines` loop, from a state in which `ls` are the lines still to be fed -/
+theorem inv_feedLines (ls : List Bytes) (w : World)
+    (hw : w.wire ++ w.outbuffer = utf8 w.taken.flatten) (hq : w.taken ++ w.queue = w.queued)
+    (hib : w.inbuffer = (splitLF w.rx).2) (hfed : w.fed ++ msgsOf env ls = msgsOf env (splitLF w.rx).1)
+    (hc : w.crashed = none) : Inv env (feedLines env ls w) := by
+  induction ls generalizing w with
+  | nil =>
+    simp only [msgsOf, List.filterMap_nil, List.append_nil] at hfed
+    exact ⟨hw, hq, hib, hfed, hc⟩
+  | cons l ls ih =>
+    unfold feedLines
+    cases h : parseMsg env.timeOk (decode l) with
+    | empty => exact ih w hw hq hib (by simpa [msgsOf, lineMsg, h] using hfed) hc
+    | malformed =>
+      simp only [hne.2.2, Bool.false_eq_true, ↓reduceIte]
+      exact ih w hw hq hib (by simpa [msgsOf, lineMsg, h] using hfed) hc
+    | crash e => exact absurd h (parseMsg_no_crash _ _ _)
+    | msg m =>
+      simp only [hne.1 w.allFed m]
+      have hfed' : (w.fed ++ [m]) ++ msgsOf env ls = msgsOf env (splitLF w.rx).1 := by
+        rw [← hfed]; simp [msgsOf, lineMsg, h]
+      have hq' : w.taken ++ (w.queue ++ (if w.ircZombie then [] else env.react w.allFed m))
+          = w.queued ++ (if w.ircZombie then [] else env.react w.allFed m) := by
+        rw [← List.append_assoc, hq]
+      cases hr : env.reconnects w.allFed m with
+      | some wait => exact inv_reconnect wait _ hc
+      | none => exact ih (feedMsg env m w) hw hq' hib hfed' hc
+
 theorem inv_readData (b : Bytes) (w : World) (h : Inv env w) : Inv env (readData env b w) := by
   unfold readData
-  rw [feedLines_eq env hne]
-  refine ⟨h.wire, ?_, ?_, ?_, h.nocrash⟩
-  · show w.taken ++ (w.queue ++ _) = w.queued ++ _
-    rw [← List.append_assoc, h.queue]
+  apply inv_feedLines hne
+  · exact h.wire
+  · exact h.queue
   · show (splitLF (w.inbuffer ++ b)).2 = (splitLF (w.rx ++ b)).2
     rw [splitLF_append w.rx b, h.inbuf]
   · show w.fed ++ msgsOf env (splitLF (w.inbuffer ++ b)).1 = msgsOf env (splitLF (w.rx ++ b)).1
     rw [splitLF_append w.rx b, h.inbuf, h.fed, msgsOf_append]
+  · exact h.nocrash
 
 theorem inv_sendAfterRead (w : World) (h : Inv env w) : Inv env (sendAfterRead env w) := by
   unfold sendAfterRead
@@ -330,11 +383,18 @@ theorem inv_select (w : World) (h : Inv env w) : Inv env (select env w) := by
     · exact h
     · exact inv_selectSend hne _ (inv_selectRead hne w h)
 
+omit hne in
+theorem inv_runTimer (w : World) (h : Inv env w) : Inv env (runTimer env w) := by
+  unfold runTimer
+  split
+  · exact inv_reconnect false w h.nocrash
+  · exact h
+
 theorem inv_run (w : World) (h : Inv env w) : Inv env (run env w) := by
   unfold run
   split
-  · exact h
-  · exact inv_select hne _ (inv_sendIfMsgs hne w h)
+  · exact inv_runTimer w h
+  · exact inv_select hne _ (inv_sendIfMsgs hne _ (inv_runTimer w h))
 
 omit hne in
 theorem inv_loopCatch (w : World) (h : Inv env w) : Inv env (loopCatch w) := by
@@ -361,6 +421,7 @@ theorem inv_step (w : World) (op : Op) (h : Inv env w) : Inv env (step env w op)
   | scriptSend r => exact ⟨h.wire, h.queue, h.inbuf, h.fed, h.nocrash⟩
   | scriptRecv r => exact ⟨h.wire, h.queue, h.inbuf, h.fed, h.nocrash⟩
   | ircDie => exact ⟨h.wire, h.queue, h.inbuf, h.fed, h.nocrash⟩
+  | tick => exact ⟨h.wire, h.queue, h.inbuf, h.fed, h.nocrash⟩
   | loop => exact inv_loop hne w h
 
 theorem inv_runOps (ops : List Op) (w : World) (h : Inv env w) : Inv env (runOps env w ops) := by
@@ -380,13 +441,13 @@ section
 variable {env : Env} (hne : NoEscape env)
 include hne
 
-theorem readData_fed (b : Bytes) (w : World) :
+theorem readData_fed (b : Bytes) (w : World) (hnr : NoReconnect env) :
     (readData env b w).fed = w.fed ++ msgsOf env (splitLF (w.inbuffer ++ b)).1 := by
-  unfold readData; rw [feedLines_eq env hne]
+  unfold readData; rw [feedLines_eq env hne _ _ (hnr.on _)]
 
-theorem readData_inbuffer (b : Bytes) (w : World) :
+theorem readData_inbuffer (b : Bytes) (w : World) (hnr : NoReconnect env) :
     (readData env b w).inbuffer = (splitLF (w.inbuffer ++ b)).2 := by
-  unfold readData; rw [feedLines_eq env hne]
+  unfold readData; rw [feedLines_eq env hne _ _ (hnr.on _)]
 
 omit hne in
 theorem splitLF_of_no_lf (b : Bytes) (h : LF ∉ b) : splitLF b = ([], b) := by
@@ -396,16 +457,16 @@ theorem splitLF_of_no_lf (b : Bytes) (h : LF ∉ b) : splitLF b = ([], b) := by
     simp only [List.mem_cons, not_or] at h
     rw [splitLF_cons_ne (fun hc => h.1 hc.symm), ih h.2]
 
-theorem feedChunks_spec (cs : List Bytes) (w : World) (hw : LF ∉ w.inbuffer) :
+theorem feedChunks_spec (hnr : NoReconnect env) (cs : List Bytes) (w : World) (hw : LF ∉ w.inbuffer) :
     (feedChunks env w cs).fed = w.fed ++ msgsOf env (splitLF (w.inbuffer ++ cs.flatten)).1 ∧
     (feedChunks env w cs).inbuffer = (splitLF (w.inbuffer ++ cs.flatten)).2 := by
   induction cs generalizing w with
   | nil =>
     simp [feedChunks, splitLF_of_no_lf _ hw, msgsOf]
   | cons c cs ih =>
-    have := ih (readData env c w) (by rw [readData_inbuffer hne]; exact splitLF_rem_no_lf _)
+    have := ih (readData env c w) (by rw [readData_inbuffer hne _ _ hnr]; exact splitLF_rem_no_lf _)
     simp only [feedChunks, List.foldl_cons] at this ⊢
-    rw [this.1, this.2, readData_fed hne, readData_inbuffer hne]
+    rw [this.1, this.2, readData_fed hne _ _ hnr, readData_inbuffer hne _ _ hnr]
     simp only [List.flatten_cons, ← List.append_assoc]
     rw [splitLF_append (w.inbuffer ++ c) cs.flatten]
     simp [msgsOf_append]
@@ -421,26 +482,29 @@ structure Calm (w : World) : Prop where
   removed : w.removed = false
   crashed : w.crashed = none
   sendScript : w.sendScript = []
+  reconnectAt : w.reconnectAt = false
 
 section
 variable {env : Env} (hne : NoEscape env)
 include hne
 
 theorem calm_sendIfMsgs (w : World) (h : Calm w) :
-    Calm (sendIfMsgs env w) ∧ (sendIfMsgs env w).recvScript = w.recvScript ∧ (sendIfMsgs env w).rx = w.rx := by
-  obtain ⟨h1, h2, h3, h4, h5, h6⟩ := h
+    Calm (sendIfMsgs env w) ∧ (sendIfMsgs env w).recvScript = w.recvScript ∧ (sendIfMsgs env w).rx = w.rx ∧
+    (sendIfMsgs env w).inbuffer = w.inbuffer := by
+  obtain ⟨h1, h2, h3, h4, h5, h6, h7⟩ := h
   rw [sendIfMsgs_eq hne]
-  refine ⟨⟨?_, ?_, ?_, ?_, ?_, ?_⟩, ?_, ?_⟩ <;>
+  refine ⟨⟨?_, ?_, ?_, ?_, ?_, ?_, ?_⟩, ?_, ?_, ?_⟩ <;>
   · simp only [sendPlain, sendTake, takeAll, sendFlush, sendFinish, doSend, reallyDie, driverDie]
     (repeat' split) <;> simp_all
 
-theorem calm_readData (b : Bytes) (w : World) (h : Calm w) :
+theorem calm_readData (b : Bytes) (w : World) (h : Calm w)
+    (hnr : NoReconnectOn env (msgsOf env (splitLF (w.inbuffer ++ b)).1)) :
     Calm (readData env b w) ∧ (readData env b w).recvScript = w.recvScript ∧
       (readData env b w).rx = w.rx ++ b := by
-  obtain ⟨h1, h2, h3, h4, h5, h6⟩ := h
+  obtain ⟨h1, h2, h3, h4, h5, h6, h7⟩ := h
   unfold readData
-  rw [feedLines_eq env hne]
-  exact ⟨⟨h1, h2, h3, h4, h5, h6⟩, rfl, rfl⟩
+  rw [feedLines_eq env hne _ _ hnr]
+  exact ⟨⟨h1, h2, h3, h4, h5, h6, h7⟩, rfl, rfl⟩
 
 end
 
@@ -448,7 +512,11 @@ end
 def chunkOps (cs : List Bytes) : List Op := cs.flatMap (fun c => [.scriptRecv (.data c), .loop])
 
 theorem calm_setRecv (w : World) (rs : List RecvRes) (h : Calm w) : Calm { w with recvScript := rs } :=
-  ⟨h.connected, h.zombie, h.ircZombie, h.removed, h.crashed, h.sendScript⟩
+  ⟨h.connected, h.zombie, h.ircZombie, h.removed, h.crashed, h.sendScript, h.reconnectAt⟩
+
+theorem runTimer_calm (env : Env) (w : World) (h : Calm w) : runTimer env w = w := by
+  unfold runTimer
+  simp only [h.reconnectAt, Bool.false_and, Bool.false_eq_true, ↓reduceIte]
 
 theorem read_data_cons (env : Env) (w : World) (b : UInt8) (bs : Bytes) (rs : List RecvRes)
     (h : w.recvScript = .data (b :: bs) :: rs) :
@@ -473,7 +541,8 @@ variable {env : Env} (hne : NoEscape env)
 include hne
 
 /-- one chunk: what the loop pass computes, explicitly -/
-theorem loop_chunk_eq (b : UInt8) (bs : Bytes) (w : World) (h : Calm w) (hr : w.recvScript = []) :
+theorem loop_chunk_eq (b : UInt8) (bs : Bytes) (w : World) (h : Calm w) (hr : w.recvScript = [])
+    (hnr : NoReconnectOn env (msgsOf env (splitLF (w.inbuffer ++ b :: bs)).1)) :
     loop env (step env w (.scriptRecv (.data (b :: bs)))) =
       sendIfMsgs env (sendIfMsgs env (readData env (b :: bs)
         { sendIfMsgs env { w with recvScript := [.data (b :: bs)] } with recvScript := [] })) := by
@@ -482,22 +551,27 @@ theorem loop_chunk_eq (b : UInt8) (bs : Bytes) (w : World) (h : Calm w) (hr : w.
   rw [e1]
   have c1 := calm_setRecv w [.data (b :: bs)] h
   have r1 : ({ w with recvScript := [.data (b :: bs)] } : World).recvScript = [.data (b :: bs)] := rfl
-  generalize ({ w with recvScript := [.data (b :: bs)] } : World) = w1 at c1 r1 ⊢
-  obtain ⟨c2, r2, -⟩ := calm_sendIfMsgs hne w1 c1
+  have i1 : ({ w with recvScript := [.data (b :: bs)] } : World).inbuffer = w.inbuffer := rfl
+  generalize ({ w with recvScript := [.data (b :: bs)] } : World) = w1 at c1 r1 i1 ⊢
+  obtain ⟨c2, r2, -, i2⟩ := calm_sendIfMsgs hne w1 c1
   have erun : run env w1 = select env (sendIfMsgs env w1) := by
     unfold run
+    rw [runTimer_calm env w1 c1]
     simp only [c1.connected, Bool.not_true, Bool.false_eq_true, ↓reduceIte]
-  generalize sendIfMsgs env w1 = w2 at c2 r2 erun ⊢
+  generalize sendIfMsgs env w1 = w2 at c2 r2 i2 erun ⊢
   have eread : read env w2 = sendAfterRead env (readData env (b :: bs) { w2 with recvScript := [] }) :=
     read_data_cons env w2 b bs [] (r2.trans r1)
   have c3 := calm_setRecv w2 [] c2
-  generalize ({ w2 with recvScript := [] } : World) = w3 at c3 eread ⊢
-  obtain ⟨c4, -, -⟩ := calm_readData hne (b :: bs) w3 c3
+  have i3 : ({ w2 with recvScript := [] } : World).inbuffer = w2.inbuffer := rfl
+  generalize ({ w2 with recvScript := [] } : World) = w3 at c3 i3 eread ⊢
+  have hnr3 : NoReconnectOn env (msgsOf env (splitLF (w3.inbuffer ++ b :: bs)).1) := by
+    rw [i3, i2, i1]; exact hnr
+  obtain ⟨c4, -, -⟩ := calm_readData hne (b :: bs) w3 c3 hnr3
   generalize readData env (b :: bs) w3 = w4 at c4 eread ⊢
   rw [sendAfterRead_calm env w4 c4] at eread
-  obtain ⟨c5, -, -⟩ := calm_sendIfMsgs hne w4 c4
+  obtain ⟨c5, -, -, -⟩ := calm_sendIfMsgs hne w4 c4
   generalize sendIfMsgs env w4 = w5 at c5 eread ⊢
-  obtain ⟨c6, -, -⟩ := calm_sendIfMsgs hne w5 c5
+  obtain ⟨c6, -, -, -⟩ := calm_sendIfMsgs hne w5 c5
   have esel : select env w2 = sendIfMsgs env w5 := by
     unfold select
     simp only [c2.crashed, c2.connected, c2.zombie, Option.isSome_none, Bool.not_true, Bool.or_self,
@@ -510,7 +584,8 @@ theorem loop_chunk_eq (b : UInt8) (bs : Bytes) (w : World) (h : Calm w) (hr : w.
   simp only [c1.removed, Bool.false_eq_true, ↓reduceIte]
   rw [erun, esel, loopCatch_calm _ c6]
 
-theorem calm_chunk (c : Bytes) (hc : c ≠ []) (w : World) (h : Calm w) (hr : w.recvScript = []) :
+theorem calm_chunk (c : Bytes) (hc : c ≠ []) (w : World) (h : Calm w) (hr : w.recvScript = [])
+    (hnr : NoReconnectOn env (msgsOf env (splitLF (w.inbuffer ++ c)).1)) :
     Calm (loop env (step env w (.scriptRecv (.data c)))) ∧
     (loop env (step env w (.scriptRecv (.data c)))).recvScript = [] ∧
     (loop env (step env w (.scriptRecv (.data c)))).rx = w.rx ++ c := by
@@ -518,27 +593,30 @@ theorem calm_chunk (c : Bytes) (hc : c ≠ []) (w : World) (h : Calm w) (hr : w.
     cases c with
     | nil => exact absurd rfl hc
     | cons b bs => exact ⟨b, bs, rfl⟩
-  rw [loop_chunk_eq hne b bs w h hr]
+  rw [loop_chunk_eq hne b bs w h hr hnr]
   have c1 := calm_setRecv w [.data (b :: bs)] h
-  obtain ⟨c2, r2, x2⟩ := calm_sendIfMsgs hne _ c1
+  obtain ⟨c2, r2, x2, i2⟩ := calm_sendIfMsgs hne _ c1
   have c3 := calm_setRecv _ [] c2
-  obtain ⟨c4, r4, x4⟩ := calm_readData hne (b :: bs) _ c3
-  obtain ⟨c5, r5, x5⟩ := calm_sendIfMsgs hne _ c4
-  obtain ⟨c6, r6, x6⟩ := calm_sendIfMsgs hne _ c5
+  obtain ⟨c4, r4, x4⟩ := calm_readData hne (b :: bs) _ c3 (by
+    show NoReconnectOn env (msgsOf env (splitLF ((sendIfMsgs env { w with recvScript := [.data (b :: bs)] }).inbuffer
+      ++ b :: bs)).1)
+    rw [i2]; exact hnr)
+  obtain ⟨c5, r5, x5, -⟩ := calm_sendIfMsgs hne _ c4
+  obtain ⟨c6, r6, x6, -⟩ := calm_sendIfMsgs hne _ c5
   refine ⟨c6, ?_, ?_⟩
   · rw [r6, r5, r4]
   · rw [x6, x5, x4]
     show (sendIfMsgs env { w with recvScript := [.data (b :: bs)] }).rx ++ _ = _
     rw [x2]
 
-theorem calm_chunkOps (cs : List Bytes) (hcs : ∀ c ∈ cs, c ≠ []) (w : World) (h : Calm w)
-    (hr : w.recvScript = []) :
+theorem calm_chunkOps (hnr : NoReconnect env) (cs : List Bytes) (hcs : ∀ c ∈ cs, c ≠ []) (w : World)
+    (h : Calm w) (hr : w.recvScript = []) :
     Calm (runOps env w (chunkOps cs)) ∧ (runOps env w (chunkOps cs)).recvScript = [] ∧
     (runOps env w (chunkOps cs)).rx = w.rx ++ cs.flatten := by
   induction cs generalizing w with
   | nil => simp [chunkOps, runOps, h, hr]
   | cons c cs ih =>
-    obtain ⟨k1, k2, k3⟩ := calm_chunk hne c (hcs c (by simp)) w h hr
+    obtain ⟨k1, k2, k3⟩ := calm_chunk hne c (hcs c (by simp)) w h hr (hnr.on _)
     obtain ⟨j1, j2, j3⟩ := ih (fun c' hc' => hcs c' (by simp [hc'])) _ k1 k2
     have e : runOps env w (chunkOps (c :: cs)) =
         runOps env (loop env (step env w (.scriptRecv (.data c)))) (chunkOps cs) := by
@@ -549,7 +627,7 @@ theorem calm_chunkOps (cs : List Bytes) (hcs : ∀ c ∈ cs, c ≠ []) (w : Worl
 
 end
 
-theorem calm_init : Calm init := ⟨rfl, rfl, rfl, rfl, rfl, rfl⟩
+theorem calm_init : Calm init := ⟨rfl, rfl, rfl, rfl, rfl, rfl, rfl⟩
 
 /-! ### EAGAIN accounting and draining -/
 
@@ -760,8 +838,33 @@ theorem flushed_sendIfMsgs (w : World) (h : Flushed w) : Flushed (sendIfMsgs env
   · simp only [sendPlain, sendTake, takeAll, sendFlush, sendFinish, doSend, reallyDie, driverDie]
     (repeat' split) <;> simp_all
 
+omit hne in
+theorem flushed_reconnect (wait : Bool) (w : World) (h : Flushed w) : Flushed (reconnect env wait w) := by
+  unfold reconnect
+  cases wait
+  · exact ⟨rfl, rfl⟩
+  · exact ⟨h.script, rfl⟩
+
+theorem flushed_feedLines (ls : List Bytes) (w : World) (h : Flushed w) : Flushed (feedLines env ls w) := by
+  induction ls generalizing w with
+  | nil => exact h
+  | cons l ls ih =>
+    unfold feedLines
+    cases parseMsg env.timeOk (decode l) with
+    | empty => exact ih w h
+    | malformed =>
+      simp only [hne.2.2, Bool.false_eq_true, ↓reduceIte]
+      exact ih w h
+    | crash e => exact ⟨h.script, h.buffer⟩
+    | msg m =>
+      simp only [hne.1 w.allFed m]
+      have hf : Flushed (feedMsg env m w) := ⟨h.script, h.buffer⟩
+      cases env.reconnects w.allFed m with
+      | some wait => exact flushed_reconnect wait _ hf
+      | none => exact ih _ hf
+
 theorem flushed_readData (b : Bytes) (w : World) (h : Flushed w) : Flushed (readData env b w) := by
-  unfold readData; rw [feedLines_eq env hne]; exact ⟨h.script, h.buffer⟩
+  unfold readData; exact flushed_feedLines hne _ _ ⟨h.script, h.buffer⟩
 
 theorem flushed_sendAfterRead (w : World) (h : Flushed w) : Flushed (sendAfterRead env w) := by
   unfold sendAfterRead
@@ -798,16 +901,21 @@ theorem flushed_loop (w : World) (h : Flushed w) : Flushed (loop env w) := by
   unfold loop
   split
   · exact h
-  · have h1 : Flushed (run env w) := by
+  · have h0 : Flushed (runTimer env w) := by
+      unfold runTimer
+      split
+      · exact flushed_reconnect false w h
+      · exact h
+    have h1 : Flushed (run env w) := by
       unfold run
       split
-      · exact h
+      · exact h0
       · unfold select
         split
-        · exact flushed_sendIfMsgs hne w h
+        · exact flushed_sendIfMsgs hne _ h0
         · split
-          · exact flushed_sendIfMsgs hne w h
-          · exact flushed_selectSend hne _ (flushed_selectRead hne _ (flushed_sendIfMsgs hne w h))
+          · exact flushed_sendIfMsgs hne _ h0
+          · exact flushed_selectSend hne _ (flushed_selectRead hne _ (flushed_sendIfMsgs hne _ h0))
     unfold loopCatch
     split
     · exact ⟨h1.script, h1.buffer⟩
@@ -834,6 +942,7 @@ theorem flushed_runOps {env : Env} (hne : NoEscape env) (ops : List Op) (w : Wor
     | scriptSend r => exact absurd rfl (hn (.scriptSend r) (by simp) r)
     | scriptRecv r => exact ⟨h.script, h.buffer⟩
     | ircDie => exact ⟨h.script, h.buffer⟩
+    | tick => exact ⟨h.script, h.buffer⟩
     | loop => exact flushed_loop hne w h
 
 end C11
